@@ -64,6 +64,10 @@ func inNetns(setup []string, fn func() error) error {
 type attachCase struct {
 	Cfg     filterCfg `json:"config"`
 	Backlog int       `json:"backlog"` // datagrams sent between opening the handle and setting its filter
+	// Prev: a filter the handle already carries when the backlog arrives (the SACK variant switches from the SYN-ACK
+	// filter to the tuple filter on one handle); the backlog then passes Prev and must be hidden by the new filter:
+	// "udp" (datagrams, then the icmp filter) or "synack" (SYN-ACKs of other connections, then the tuple filter)
+	Prev string `json:"previous_filter,omitempty"`
 }
 
 func pseudoFrame(ip []byte) []byte {
@@ -200,8 +204,27 @@ func checkAttach(t *testing.T, c *attachCase, rec *Recorder) []Diff {
 			return fmt.Errorf("harness-infra: %v", err)
 		}
 		defer src.Close()
+		var ln2 net.Listener
+		if c.Prev != "" {
+			if err := src.SetPacketFilter(filterCfg{Type: c.Prev}.spec()); err != nil {
+				return fmt.Errorf("harness-infra: previous filter: %v", err)
+			}
+			if c.Prev == "synack" {
+				if ln2, err = net.Listen("tcp4", "127.0.0.1:40077"); err != nil {
+					return fmt.Errorf("harness-infra: %v", err)
+				}
+				defer ln2.Close()
+			}
+		}
 		// the backlog must not satisfy the filter under test: UDP datagrams, or TCP segments for the UDP variant's filter
 		for i := 0; i < c.Backlog; i++ {
+			if c.Prev == "synack" {
+				// the SYN-ACK of a connection between other ports ("stale" is in none of them: they are counted by flags)
+				if conn, err := net.DialTimeout("tcp4", "127.0.0.1:40077", time.Second); err == nil {
+					defer conn.Close()
+				}
+				continue
+			}
 			if c.Cfg.Type == "udp" {
 				pre.Write([]byte(fmt.Sprintf("stale-%d", i)))
 			} else {
@@ -214,6 +237,9 @@ func checkAttach(t *testing.T, c *attachCase, rec *Recorder) []Diff {
 		}
 		for _, p := range seen {
 			if bytes.Contains(p, []byte("stale-")) {
+				queued++
+			}
+			if c.Prev == "synack" && len(p) > 33 && p[9] == 6 && p[20+13]&0x12 == 0x12 {
 				queued++
 			}
 		}
@@ -285,13 +311,13 @@ func checkAttach(t *testing.T, c *attachCase, rec *Recorder) []Diff {
 	case queued > 0:
 		bucket = "1..128"
 	}
-	rec.CaseEnumerated(queued > 0, map[string]any{"config": c.Cfg, "backlog_sent": c.Backlog, "frames_queued_before_attach": queued, "frames_returned_after_attach": returned}, "filter:"+c.Cfg.Type, "queued:"+bucket)
+	rec.CaseEnumerated(queued > 0, map[string]any{"config": c.Cfg, "previous_filter": c.Prev, "backlog_sent": c.Backlog, "frames_queued_before_attach": queued, "frames_returned_after_attach": returned}, "filter:"+c.Cfg.Type, "queued:"+bucket)
 	return ds
 }
 
 // TestC12KernelAttach: see the head of this file.
 func TestC12KernelAttach(t *testing.T) {
-	rec := NewRecorder("C12", "C12KernelAttach", "enumeration on the real kernel (private network namespace, real AF_PACKET handle): filter {icmp, udp variant's, tcp tuple, syn-ack} x 0..600 (thorough: 0..2000, three port pairs) non-matching frames (datagrams; TCP segments for the udp variant's filter) queued on the handle before SetPacketFilter (counted by a second, unfiltered handle), then 5 more non-matching frames and one matching frame (echo request, datagram, the SYN / SYN-ACK of a real connection on the configured tuple); oracle: every frame Read returns after SetPacketFilter satisfies the reference predicate of the filter, and the matching frame is returned; non-trivial = at least one frame was queued before the filter was set")
+	rec := NewRecorder("C12", "C12KernelAttach", "enumeration on the real kernel (private network namespace, real AF_PACKET handle): filter {icmp, udp variant's, tcp tuple, syn-ack} x 0..600 (thorough: 0..2000, three port pairs) non-matching frames (datagrams; TCP segments for the udp variant's filter) queued on the handle before SetPacketFilter (counted by a second, unfiltered handle), also on a handle that already carries another filter which lets those frames pass (udp variant's -> icmp, syn-ack -> tuple: the SACK variant's switch), then 5 more non-matching frames and one matching frame (echo request, datagram, the SYN / SYN-ACK of a real connection on the configured tuple); oracle: every frame Read returns after SetPacketFilter satisfies the reference predicate of the filter, and the matching frame is returned; non-trivial = at least one frame was queued before the filter was set")
 	rec.Exhaustive = true
 	RunCases(t, rec, func(yield func(*attachCase) bool) {
 		backlogs := []int{0, 1, 40, 100, 140, 200, 600}
@@ -300,6 +326,15 @@ func TestC12KernelAttach(t *testing.T) {
 			// (the loopback device shows every frame twice: 64 datagrams are 128 frames)
 			backlogs = []int{0, 1, 2, 20, 40, 63, 64, 65, 100, 127, 128, 129, 140, 200, 300, 600, 2000}
 			ports = [][2]int{{40001, 40002}, {0x8000, 0x7fff}, {65535, 1}}
+		}
+		// a handle that already carries a filter and is given another one
+		for _, sw := range [][2]string{{"udp", "icmp"}, {"synack", "tcp"}} {
+			for _, n := range []int{1, 3, 20} {
+				c := &attachCase{Cfg: filterCfg{Type: sw[1], Src: "127.0.0.1", Dst: "127.0.0.1", SPort: 40001, DPort: 40002}, Backlog: n, Prev: sw[0]}
+				if !yield(c) {
+					return
+				}
+			}
 		}
 		for _, ty := range []string{"icmp", "udp", "tcp", "synack"} {
 			for _, pp := range ports {
@@ -1436,8 +1471,14 @@ func TestC06KernelLoopbackRuns(t *testing.T) {
 // TestC02ServerLongRun (thorough tier: takes 62 s of real time): the bundled HTTP server, started the way its
 // binary starts it, must deliver the result of a run however long the run takes; the replies were received and
 // matched, and losing the answer on the way out loses them all.
-func TestC02ServerLongRun(t *testing.T) {
-	rec := NewRecorder("C02", "C02ServerLongRun", "real clock, real sockets on loopback, the HTTP server started through Server.Start: one icmp request with a listening timeout of 61 s (the parallel engines listen for the whole timeout) and one short control request; oracle: both are answered with status 200 and a document whose first hop is the loopback address; non-trivial = the request took longer than 60 s")
+func TestC02ServerLongRun(t *testing.T) { serverLongRun(t, "C02") }
+
+// TestC15ServerLongRun: the same requests judged for C15: a request whose runs all succeeded is answered with its
+// result, however long it took.
+func TestC15ServerLongRun(t *testing.T) { serverLongRun(t, "C15") }
+
+func serverLongRun(t *testing.T, prop string) {
+	rec := NewRecorder(prop, prop+"ServerLongRun", "real clock, real sockets on loopback, the HTTP server started through Server.Start: one icmp request with a listening timeout of 61 s (the parallel engines listen for the whole timeout) and one short control request; oracle: both are answered with status 200 and a document whose first hop is the loopback address; non-trivial = the request took longer than 60 s")
 	rec.Exhaustive = true
 	type longCase struct {
 		TimeoutMs int `json:"timeout_ms"`
@@ -1467,16 +1508,83 @@ func TestC02ServerLongRun(t *testing.T) {
 		resp, err := cl.Get(fmt.Sprintf("http://127.0.0.1:3765/traceroute?target=127.0.0.1&protocol=icmp&max-ttl=2&timeout=%d&traceroute-queries=1&e2e-queries=0", c.TimeoutMs))
 		took := time.Since(t0)
 		if err != nil {
-			ds = append(ds, Diff{"C02", "answer-lost", fmt.Sprintf("a request whose run listens for %d ms got no answer after %v: %v (the loopback address answers the first probe within microseconds)", c.TimeoutMs, took.Round(time.Millisecond), err)})
+			ds = append(ds, Diff{prop, "answer-lost", fmt.Sprintf("a request whose run listens for %d ms got no answer after %v: %v (the loopback address answers the first probe within microseconds)", c.TimeoutMs, took.Round(time.Millisecond), err)})
 		} else {
 			defer resp.Body.Close()
 			var doc result.Results
 			derr := json.NewDecoder(resp.Body).Decode(&doc)
 			if resp.StatusCode != 200 || derr != nil || len(doc.Traceroute.Runs) != 1 || len(doc.Traceroute.Runs[0].Hops) == 0 || !doc.Traceroute.Runs[0].Hops[0].Reachable {
-				ds = append(ds, Diff{"C02", "answer-lost", fmt.Sprintf("a request whose run listens for %d ms was answered with status %d, decode error %v, %d runs", c.TimeoutMs, resp.StatusCode, derr, len(doc.Traceroute.Runs))})
+				ds = append(ds, Diff{prop, "answer-lost", fmt.Sprintf("a request whose run listens for %d ms was answered with status %d, decode error %v, %d runs", c.TimeoutMs, resp.StatusCode, derr, len(doc.Traceroute.Runs))})
 			}
 		}
 		rec.CaseEnumerated(took > 60*time.Second, map[string]any{"case": c, "took_s": took.Seconds()}, fmt.Sprintf("timeout_ms:%d", c.TimeoutMs))
+		return ds
+	})
+}
+
+// TestC13KernelPortSpaces: the source port of a TCP SYN run is a TCP port: a number that is free among the UDP
+// ports may belong to an established TCP connection to the very target (an application's own connection), and
+// probes sent from it are answered with challenge ACKs instead of SYN-ACK or RST.
+func TestC13KernelPortSpaces(t *testing.T) {
+	rec := NewRecorder("C13", "C13KernelPortSpaces", "enumeration on the real kernel (private network namespace with a two-port ephemeral range): one of the two numbers is taken among the UDP ports, the other belongs to an established TCP connection to the traced target and port; a tcp-syn run to that target (open port, then a closed one); oracle: exactly one entry, the destination (SYN-ACK or RST); non-trivial always")
+	rec.Exhaustive = true
+	type portCase struct {
+		Open bool `json:"port_open"`
+	}
+	RunCases(t, rec, func(yield func(*portCase) bool) {
+		for _, o := range []bool{true, false} {
+			if !yield(&portCase{o}) {
+				return
+			}
+		}
+	}, func(t *testing.T, c *portCase, rec *Recorder) []Diff {
+		var ds []Diff
+		var run *result.TracerouteRun
+		var rerr error
+		err := inNetns([]string{"sysctl -qw net.ipv4.ip_local_port_range='40000 40001'"}, func() error {
+			lo := net.IPv4(127, 0, 0, 1)
+			ln, err := net.Listen("tcp4", "127.0.0.1:8080")
+			if err != nil {
+				return fmt.Errorf("harness-infra: %v", err)
+			}
+			defer ln.Close()
+			// UDP port 40001 is taken, so a UDP socket that asks the kernel for a port gets 40000
+			u, err := net.ListenUDP("udp4", &net.UDPAddr{IP: lo, Port: 40001})
+			if err != nil {
+				return fmt.Errorf("harness-infra: %v", err)
+			}
+			defer u.Close()
+			// TCP port 40000 belongs to an established connection to the target
+			d := net.Dialer{LocalAddr: &net.TCPAddr{IP: lo, Port: 40000}, Timeout: time.Second}
+			app, err := d.Dial("tcp4", "127.0.0.1:8080")
+			if err != nil {
+				return fmt.Errorf("harness-infra: %v", err)
+			}
+			defer app.Close()
+			port := uint16(8080)
+			if !c.Open {
+				port = 8081
+				// an established connection to the closed port cannot exist; hold the number with a connection to 8080 as well
+			}
+			run, rerr = tcp.NewTCPv4(lo, port, 1, 3, 10*time.Millisecond, 200*time.Millisecond, false, false).Traceroute()
+			return nil
+		})
+		if err != nil {
+			fmt.Println(err)
+			t.Fatalf("%v", err)
+		}
+		switch {
+		case rerr != nil || run == nil:
+			ds = append(ds, Diff{"C13", "run-failed", fmt.Sprintf("tcp-syn run to the loopback target (port open: %v) failed: %v", c.Open, rerr)})
+		case len(run.Hops) != 1 || run.Hops[0] == nil || !run.Hops[0].IsDest:
+			ds = append(ds, Diff{"C13", "destination-not-found", fmt.Sprintf("tcp-syn run from source port %d to the loopback target (port open: %v) returned %d entries (%s); an established connection of the host uses TCP port 40000 towards that target", run.Source.Port, c.Open, len(run.Hops), describeHops(run))})
+		}
+		rec.CaseEnumerated(true, map[string]any{"case": c, "source_port": func() int {
+			if run != nil {
+				return int(run.Source.Port)
+			}
+			return 0
+		}()}, fmt.Sprintf("open:%v", c.Open))
 		return ds
 	})
 }
